@@ -4,7 +4,8 @@ META = {
     'property_id': 'C10', 'lean_module': 'Placement.Props.C10', 'category': 'proof',
     'text': 'Lean 4 theorems: generations are monotone under every request of the model, strictly increase on the changes '
             'the property lists, and are unchanged by rejected requests (all states); tied to the code by differential '
-            'histories comparing generation columns, and a monitor on the real tables and response bodies.',
+            'histories comparing generation columns, and a monitor on the real tables, the response bodies and - after every request that '
+            'moved a generation - every route that reports one (the listing and the four per-provider routes).',
     'level_note': 'trusted: Lean kernel; correspondence sampled.',
     'technique': 'Lean 4 proof (per-handler lemmas, induction over histories) + model/implementation correspondence',
     'design_ref': 'DESIGN.md section 5, C10',
